@@ -141,6 +141,14 @@ func (r *vfFilterRig) probe(tag string, out [][]byte, in [][]byte) bool {
 		gotOut := r.clientOut.Bytes()[o0:]
 		gotIn := r.siSink.Bytes()[i0:]
 		if bytes.HasSuffix(gotOut, sentinel) && bytes.HasSuffix(gotIn, sentinel) || time.Now().After(deadline) {
+			if len(gotOut) < len(wantOut) && bytes.HasPrefix(wantOut, gotOut) && len(gotIn) <= len(wantIn) && bytes.HasPrefix(wantIn, gotIn) {
+				c.Slow("c05-probe-incomplete:"+tag, "%s: after 20 s only %d of %d output bytes and %d of %d input bytes had come through (all correct so far)", tag, len(gotOut), len(wantOut), len(gotIn), len(wantIn))
+				return false
+			}
+			if len(gotIn) < len(wantIn) && bytes.HasPrefix(wantIn, gotIn) && bytes.Equal(gotOut, wantOut) {
+				c.Slow("c05-probe-incomplete:"+tag, "%s: after 20 s only %d of %d input bytes had come through (all correct so far)", tag, len(gotIn), len(wantIn))
+				return false
+			}
 			if !bytes.Equal(gotOut, wantOut) {
 				i := vfLCP(gotOut, wantOut)
 				c.Viol("c05-output-not-transparent:"+tag, "%s: terminal side received %d bytes, server wrote %d; first difference at %d: got %q want %q", tag, len(gotOut), len(wantOut), i, vfHead(gotOut[vfMin(i, len(gotOut)):], 60), vfHead(wantOut[vfMin(i, len(wantOut)):], 60))
